@@ -70,6 +70,7 @@ type QOpts struct {
 	PBadDir  int  // percent of directives that are malformed
 	Depth    int
 	AllowDup bool
+	PUntyped int // percent of inline fragments written without a type condition (`... @include(if: $v) { a b }`)
 }
 
 type qgen struct {
@@ -363,7 +364,19 @@ func (g *qgen) set(typ string, depth int) []*Node {
 				}
 			}
 		case k < 80 && depth > 0:
-			out = append(out, &Node{Kind: "inline", On: typ, Dirs: g.dirs(), ID: g.id(), Sub: g.set(typ, depth-1)})
+			on := typ
+			if g.r.Chance(g.o.PUntyped) {
+				on = "" // applies to the enclosing type
+			}
+			ds := g.dirs()
+			if on == "" && len(ds) == 0 && g.o.PDir > 0 && g.r.Chance(80) {
+				// a fragment without type condition is there for its directives
+				save := g.o.PDir
+				g.o.PDir = 100
+				ds = g.dirs()
+				g.o.PDir = save
+			}
+			out = append(out, &Node{Kind: "inline", On: on, Dirs: ds, ID: g.id(), Sub: g.set(typ, depth-1)})
 		case k < 92 && depth > 0 && typ != "Query":
 			if sp := g.spread(typ, depth); sp != nil {
 				out = append(out, sp)
@@ -569,7 +582,11 @@ func printNodes(b *strings.Builder, ns []*Node) {
 				printNodes(b, n.Sub)
 			}
 		case "inline":
-			b.WriteString("... on " + n.On + printDirs(n.Dirs) + " ")
+			if n.On == "" {
+				b.WriteString("..." + printDirs(n.Dirs) + " ")
+			} else {
+				b.WriteString("... on " + n.On + printDirs(n.Dirs) + " ")
+			}
 			printNodes(b, n.Sub)
 		case "spread":
 			b.WriteString("..." + n.Frag + printDirs(n.Dirs))
@@ -747,6 +764,28 @@ func (q *Query) Prune() *Query {
 		p.Frags = append(p.Frags, &FragDef{Name: f.Name, On: f.On, ID: f.ID, Body: q.pruneNodes(f.Body)})
 	}
 	return p
+}
+
+// HasUntyped: some inline fragment has no type condition.
+func (q *Query) HasUntyped() bool {
+	var walk func(ns []*Node) bool
+	walk = func(ns []*Node) bool {
+		for _, n := range ns {
+			if n.Kind == "inline" && n.On == "" || walk(n.Sub) {
+				return true
+			}
+		}
+		return false
+	}
+	if walk(q.Body) {
+		return true
+	}
+	for _, f := range q.Frags {
+		if walk(f.Body) {
+			return true
+		}
+	}
+	return false
 }
 
 // HasDirectives reports whether any node carries @skip or @include.
